@@ -700,3 +700,91 @@ impl Engine for CompileDeterminism {
         out
     }
 }
+
+// ------------------------------------------------------------------ fresh processes
+
+/// The same jobs compiled in this process and in fresh processes (new address space, new allocator
+/// state, empty counter history): outputs must agree. Covers what no in-process seam controls:
+/// dependence on addresses or on per-process state.
+#[derive(Clone, Debug, Serialize, Deserialize)]
+pub struct CrossTrace {
+    pub jobs: Vec<Job>,
+    pub hash_seeds: Vec<u64>,
+}
+
+pub struct CrossProcess;
+
+/// `verif-sim jobdigest <hash seed> <json jobs>`: prints one line per job.
+pub fn jobdigest_main(hash_seed: u64, jobs_json: &str) -> i32 {
+    let jobs: Vec<Job> = match serde_json::from_str(jobs_json) {
+        Ok(j) => j,
+        Err(_) => return 2,
+    };
+    crate::core::panics::install();
+    let outs = hashseed::run_on_fresh_thread(hash_seed, 32 << 20, move || jobs.iter().map(run_job).collect::<Vec<_>>()).unwrap_or_default();
+    for o in outs {
+        match o {
+            JobOut::Bytes { digest, len } => println!("B {digest:016x} {len}"),
+            JobOut::Err(e) => println!("E {e}"),
+        }
+    }
+    0
+}
+
+fn out_line(o: &JobOut) -> String {
+    match o {
+        JobOut::Bytes { digest, len } => format!("B {digest:016x} {len}"),
+        JobOut::Err(e) => format!("E {e}"),
+    }
+}
+
+impl Engine for CrossProcess {
+    type Trace = CrossTrace;
+    fn name(&self) -> &'static str {
+        "compile_fresh_processes"
+    }
+    fn rule(&self) -> &'static str {
+        "case = 2-6 compile jobs executed in this worker process and again in two freshly started processes (new address space, allocator and counter state) under different hash seeds; per-job output digests must agree; non-trivial iff >=1 job produced bytes"
+    }
+    fn components(&self) -> &'static str {
+        "real: write-fonts / klippa compilation in separate OS processes; simulated: hash seeds (getrandom interposition) - the OS decides addresses"
+    }
+    fn generate(&self, case_seed: u64) -> CrossTrace {
+        let mut rng = Rng::new(case_seed);
+        let heavy = rng.chance(1, 10);
+        let jobs = (0..2 + rng.below(5)).map(|_| gen_job(&mut rng, heavy)).collect();
+        CrossTrace { jobs, hash_seeds: vec![rng.next_u64() | 1, rng.next_u64() | 1] }
+    }
+    fn execute(&self, t: &mut CrossTrace, stats: &mut Stats) -> Verdict {
+        let _ = (corpus::corpus(), pool());
+        let here: Vec<String> = t.jobs.iter().map(|j| out_line(&reference(j))).collect();
+        let json = serde_json::to_string(&t.jobs).unwrap_or_default();
+        let exe = match std::env::current_exe() {
+            Ok(e) => e,
+            Err(_) => return Verdict::Inconclusive("no current_exe".into()),
+        };
+        for hs in &t.hash_seeds {
+            let out = std::process::Command::new(&exe).arg("jobdigest").arg(hs.to_string()).arg(&json).output();
+            let Ok(out) = out else { return Verdict::Inconclusive("cannot start a fresh process".into()) };
+            let lines: Vec<String> = String::from_utf8_lossy(&out.stdout).lines().map(|l| l.to_string()).collect();
+            if lines.len() != here.len() {
+                return Verdict::Inconclusive(format!("fresh process reported {} of {} jobs", lines.len(), here.len()));
+            }
+            stats.bump("fault.process.fresh_process");
+            for (i, (a, b)) in here.iter().zip(lines.iter()).enumerate() {
+                stats.bump("oracle.digest_vs_fresh_process");
+                if a != b {
+                    return Verdict::Fail(Violation::new("C07", "C07.digest_differs_between_processes", format!("job {i} {:?}: this process `{a}`, fresh process (hash seed {hs}) `{b}`", t.jobs[i])));
+                }
+            }
+        }
+        let mut d = Digest::new();
+        for l in &here {
+            d.str(l);
+        }
+        Verdict::Pass { digest: d.finish(), sig: fnv(json.as_bytes()), nontrivial: here.iter().any(|l| l.starts_with('B')) }
+    }
+    fn shrink(&self, t: &CrossTrace) -> Vec<CrossTrace> {
+        crate::core::drop_chunks(&t.jobs).into_iter().filter(|j| !j.is_empty()).map(|jobs| CrossTrace { jobs, hash_seeds: t.hash_seeds.clone() }).collect()
+    }
+}
